@@ -1,2 +1,112 @@
--- stub: replaced when the area is built
-def main : IO Unit := pure ()
+import Nstd.Common.Basic
+import Nstd.Avl.Model
+/-
+  Line protocol of the Avl area (Map / MultiMap, property C01).
+  Containers: 0 = Map<Key,int>, 1 = MultiMap<Key,int>, 2 = a second Map<Key,int>.
+    reset | dom <lo> <hi> | obs <0|1|2>
+    <c> ins k v | insat p k v | rmkey k | rmat p | rmfront | rmback | clear
+    <c> find k | has k | count k | front | back | nop | assign <src> | insall <src>
+  Observation of the container touched, one line per op:
+    <ret> c=<key comparisons of the op> n=<size> [| k:v k:v ...] [| p/c p/c ...]
+  the last part lists, for every key of the domain, the position `find` returns (e = end) and
+  the number of comparisons it made.  A rejected op prints `bad-op`.
+-/
+open Nstd.Common
+namespace Nstd.Avl
+
+structure World where
+  cs : List St
+  lo : Int := 0
+  hi : Int := -1
+  lvl : Nat := 2
+
+def World.init : World := { cs := [St.init false, St.init true, St.init false] }
+
+def retStr : Ret → String
+  | .none => "-"
+  | .it p => s!"it={p}"
+  | .bool b => s!"b={if b then 1 else 0}"
+  | .num n => s!"cnt={n}"
+  | .val (some v) => s!"v={v}"
+  | .val none => "v=none"
+
+def domKeys (lo hi : Int) : List Int :=
+  (List.range (hi + 1 - lo).toNat).map (fun (i : Nat) => lo + Int.ofNat i)
+
+def obs (w : World) (s : St) (o : Out) : String :=
+  let base := s!"{retStr o.ret} c={o.cmps} n={s.size}"
+  let it := if w.lvl ≥ 1 then " |" ++ String.join (s.iter.map (fun e => s!" {e.1}:{e.2}")) else ""
+  let fs := if w.lvl ≥ 2 then
+      " |" ++ String.join ((domKeys w.lo w.hi).map (fun k =>
+        " " ++ (match s.findIdx k with | some p => toString p | none => "e") ++ "/" ++ toString (s.findCmps k)))
+    else ""
+  base ++ it ++ fs
+
+def parseOp : List String → Option Op
+  | ["ins", k, v] => do pure (.insert (← k.toInt?) (← v.toInt?))
+  | ["insat", p, k, v] => do pure (.insertAt (← p.toNat?) (← k.toInt?) (← v.toInt?))
+  | ["rmkey", k] => do pure (.removeKey (← k.toInt?))
+  | ["rmat", p] => do pure (.removeAt (← p.toNat?))
+  | ["rmfront"] => some .removeFront
+  | ["rmback"] => some .removeBack
+  | ["clear"] => some .clear
+  | ["find", k] => do pure (.find (← k.toInt?))
+  | ["has", k] => do pure (.contains (← k.toInt?))
+  | ["count", k] => do pure (.count (← k.toInt?))
+  | ["front"] => some .front
+  | ["back"] => some .back
+  | _ => none
+
+def setC (w : World) (c : Nat) (s : St) : World := { w with cs := w.cs.set c s }
+
+def stepLine (w : World) (ws : List String) : World × String :=
+  match ws with
+  | ["reset"] => (World.init, "ok")
+  | ["dom", lo, hi] =>
+    match lo.toInt?, hi.toInt? with
+    | some lo, some hi => ({ w with lo := lo, hi := hi }, "ok")
+    | _, _ => (w, "bad-op")
+  | ["obs", n] =>
+    match n.toNat? with
+    | some n => ({ w with lvl := n }, "ok")
+    | none => (w, "bad-op")
+  | c :: rest =>
+    match c.toNat? with
+    | none => (w, "bad-op")
+    | some c =>
+      match w.cs[c]? with
+      | none => (w, "bad-op")
+      | some s =>
+        match rest with
+        | ["nop"] => (w, obs w s ⟨.none, 0⟩)
+        | [op, src] =>
+          if op = "assign" ∨ op = "insall" then
+            match src.toNat? with
+            | none => (w, "bad-op")
+            | some j =>
+              match w.cs[j]? with
+              | none => (w, "bad-op")
+              | some sj =>
+                if j = c ∨ s.multi ∨ sj.multi then (w, "bad-op")
+                else
+                  let r := if op = "assign" then s.assignFrom sj else s.insertAll sj
+                  (setC w c r.1, obs w r.1 ⟨.none, r.2⟩)
+          else
+            match parseOp rest with
+            | none => (w, "bad-op")
+            | some o =>
+              match step s o with
+              | none => (w, "bad-op")
+              | some r => (setC w c r.1, obs w r.1 r.2)
+        | _ =>
+          match parseOp rest with
+          | none => (w, "bad-op")
+          | some o =>
+            match step s o with
+            | none => (w, "bad-op")
+            | some r => (setC w c r.1, obs w r.1 r.2)
+  | _ => (w, "bad-op")
+
+end Nstd.Avl
+
+def main : IO Unit := Nstd.Common.ioLoop Nstd.Avl.World.init Nstd.Avl.stepLine
